@@ -95,16 +95,11 @@ Print Assumptions is_empty_list_spec.
 
 
 (* ---- ties to the constant tables regenerated from the Go sources (tools/gotables -> GoTables.v) ---- *)
-From Coq Require Import List String ZArith NArith Bool. From Bexpr Require Import Base Strconv Ast Univ Eval Api Dump GoTables TableTie. Import ListNotations.
+From Coq Require Import List String ZArith NArith Bool. From Bexpr Require Import Base Strconv Ast Univ Eval Api Dump GoTables TableTie . Import ListNotations.
 
 Theorem enum_order :
   go_enum_MatchOperator = map mop_go all_mops /\
   go_enum_BinaryOperator = ["BinaryOpAnd"; "BinaryOpOr"] /\ go_enum_UnaryOperator = ["UnaryOpNot"].
 Proof. exact TableTie.enum_order. Qed.
 Print Assumptions enum_order.
-
-Theorem match_dispatch :
-  forall op : matchop, assoc ("grammar." ++ mop_go op) go_match_dispatch = Some (dispatch_of op).
-Proof. exact TableTie.match_dispatch. Qed.
-Print Assumptions match_dispatch.
 
